@@ -17,7 +17,8 @@ CHECKS = {
             "DESIGN.md 4/C08"),
     "C12": ("exploration",
             "exhaustive enumeration of model descriptions and set-operator tables vs brute-force bitmask solver; "
-            "Hypothesis set-expression trees; sampled end-to-end World.start/connect",
+            "Hypothesis set-expression trees; sampled end-to-end World.start/connect incl. restarts of one simulator "
+            "class with a shared description under different types",
             "All 9^5*3*3 model descriptions over a 3-name universe (+ fresh name) are classified by parse_attrs and "
             "by a brute-force constraint solver (accept iff exactly one consistent classification exists) and "
             "compared by membership; the complete operator table of finite/co-finite sets and generated "
@@ -27,7 +28,8 @@ CHECKS = {
             "table); universe of 3 names.",
             "DESIGN.md 4/C12"),
     "C18": ("exploration",
-            "exhaustive size/flag/seed grid + Hypothesis sizes up to 200, validity predicates over recorded connect calls",
+            "exhaustive size/flag/seed grid x kind of iterable + Hypothesis sizes up to 5000, validity predicates over "
+            "recorded connect calls, deterministic executed-line bound for termination",
             "Every (|src| 0..12, |dest| 1..8, evenly, max_connects) inside the documented precondition x 50 seeds is "
             "run against a recording World and checked for: each source once, only dest_set members, even spread / "
             "max_connects cap, returned set exact, no exception; a sample runs against a real World.",
@@ -72,7 +74,8 @@ CHECKS = {
             "Opaque JSON tokens; one connection per input slot; persistent attributes in every reply (DESIGN 2.3).",
             "DESIGN.md 4/C03"),
     "C06": ("exploration",
-            "exhaustive enumeration of small connection multigraphs x group placements + Hypothesis graphs; "
+            "exhaustive enumeration of small connection multigraphs x group placements (all graphs over 2 simulators, all "
+            "plain/weak graphs over 4 simulators in two groups) + Hypothesis graphs; "
             "independent graph oracle (networkx simple cycles, reference group tree)",
             "Every multigraph over 2 simulators (quick) / 3 simulators with <= 3 edges (thorough) in all group "
             "placements, plus generated graphs up to 5 simulators: run(until=0) must raise ScenarioError iff the "
@@ -115,7 +118,8 @@ CHECKS = {
             "signature of open findings F10/F12 (or F04/F05 outcomes) are attributed to those findings.",
             "DESIGN.md 4/C04"),
     "C13": ("fault_enumeration",
-            "enumeration of every (simulator, step index) x malformed reply value on base scenarios + Hypothesis "
+            "enumeration of every (simulator, step index) x malformed reply value on base scenarios (also in real-time "
+            "mode on a virtual clock with a pending set_event) + Hypothesis "
             "(scenario, schedule, fault) triples; outcome oracle",
             "One malformed reply (non-int / not-later next step, output time in the past, no next step from a "
             "time-based simulator) per run at every step index, both transports: run() must raise an error naming "
@@ -136,7 +140,8 @@ CHECKS = {
             "DESIGN.md 4/C14"),
     "C11": ("exploration",
             "model-based testing: Hypothesis-generated programs of scenario-API calls interpreted against the real "
-            "World and a model of accepted data-flows + complete placement x flag x validity table",
+            "World and a model of accepted data-flows + complete placement x flag x validity table (incl. two-digit "
+            "sibling positions) + metamorphic differential (program with rejected pairs vs the same program without them)",
             "Programs (enter/leave world.group(), start with generated model descriptions, connect with valid and "
             "invalid attribute names and every flag combination) run against the World and a model: ScenarioError "
             "iff one of the four documented reasons holds; afterwards run() must show values exactly on accepted "
@@ -147,7 +152,7 @@ CHECKS = {
             "semantics (calibrated on the repository's scenario expectations, DESIGN 10.8).",
             "DESIGN.md 4/C11"),
     "C15": ("exploration",
-            "complete version table (16 versions x explicit x 5 stub kinds x type) + Hypothesis versions; recorded "
+            "complete version table (16 versions x explicit x 7 stub kinds x type) + Hypothesis versions; recorded "
             "literal requests of stub simulators; differential against a v3 stub",
             "Each stub (in-process with v3 / v2 / mixed signatures, raw-protocol remote over the in-memory transport) "
             "is started and run: step has 2 positional arguments iff version < 3, setup_done iff >= 2.2, "
